@@ -109,6 +109,16 @@ class Ctx:
                 os.remove(os.path.join(d, f))
             except OSError:
                 pass
+        # lock files of extractions that finished long ago (one per source digest and configuration)
+        try:
+            now = time.time()
+            for f in os.listdir(WORK):
+                if f.startswith("extract-") and f.endswith(".lock"):
+                    fp = os.path.join(WORK, f)
+                    if now - os.path.getmtime(fp) > 6 * 3600:
+                        os.remove(fp)
+        except OSError:
+            pass
 
 
 def main(argv=None):
